@@ -57,8 +57,11 @@ def check_C07(tier, seed):
         assumptions=["the column-level rebuild (column::decode + ColumnBuffer::push_* + finalize) is abstracted to: columns "
                      "outside Table.column_names are dropped, NULL cells of a partially-NULL column are lost (F1); the "
                      "byte-level encoders are C01's"],
-        rule=HIST_RULE + "classes: dense, absent-columns (column sets change at partition boundaries), nulls-no-compaction, "
-             "nulls-compaction (known finding F1), hex-strings (F2), compressible-strings (F28); oracle without model: "
+        rule=HIST_RULE + "classes: dense, absent-columns (column sets change at partition boundaries; F1 once a merged "
+             "partition has a partially-NULL column), nulls-no-compaction, nulls-compaction (F1), strings (ordinary words; "
+             "F28 once a merged packed-string column compresses), hex-strings (F2), compressible-strings (F28), wide-ints "
+             "(u16/u32 integer columns; F29), the F1 and F3 witnesses; all other classes use 8-bit integers and floats only; "
+             "oracle without model: "
              "content after every maintenance step = content before = acknowledged rows; partition ranges tile [0,n)")
 
 
@@ -74,7 +77,7 @@ def check_C09(tier, seed):
         assumptions=["workloads are sequential (no ingestion concurrent with the flush)",
                      "recovery stopping at a catalogue-loading site is allowed by the C09 theorems and excluded by C13"],
         rule="seeded workloads of 3..6 operations over {ingest into 1..3 tables, force_flush with factor 0/1/4/999, restart}; "
-             "every directory copy taken after a primitive effect (deduplicated by names+sizes, capped at 40 per workload in "
+             "every directory copy taken after a primitive effect (deduplicated by names+sizes, capped at 32 per workload in "
              "the quick tier: all cuts of ingestions, an even sample of the others) and 0%/50% truncations of a written log "
              "temp file are opened in a child process under a deadline; allowed: acknowledged content, or that plus the "
              "in-flight request whole (catalogue included); every 4th copy is opened twice, copies taken at the recovery's "
@@ -116,13 +119,14 @@ CLAIMED = {
              "name set is present it equals that catalogue and covers every column the table's rows carry "
              "(C13_loaded_names_are_catalogue) - the invariant is re-established segment by segment during WAL replay; "
              "(3) a column a batch did not mention reads NULL for that batch's rows in every reachable state "
-             "(C13_missing_is_null); (4) catalogue rows travel in the request's own log segment. On the faithful model "
-             "'compaction carries every column' is refuted by the F3 witness (seed \"column_names\"), replayed on the "
-             "implementation on every run. Tied to the code by the history differential with column-set generators and the "
+             "(C13_missing_is_null); (4) catalogue rows travel in the request's own log segment; (5) with the literal of "
+             "Table::new repaired (seed \"column_name\") compaction of any table always iterates over every column the "
+             "merged rows carry - the guarded run never stops at the F3 site (C13_compaction_carries_all); (6) a restart of "
+             "any reachable state returns: no catalogue-loading panic during WAL replay (C13_restart_total). On the faithful "
+             "model (5) is refuted by the F3 witness (seed \"column_names\"), replayed on the implementation on every run. Tied to the code by the history differential with column-set generators and the "
              "catalogue / SELECT * observers.",
-        note="Not closed (kept as Definition ..._statement in Props/C13.v): exactness of _meta_tables, and - for the repaired "
-             "literal - that the guarded run never stops at the F3 site and that a restart cannot fail while loading the "
-             "catalogue. Guarded run (stops at F1 / F3 sites). The order of tables within one event buffer is fixed in the "
+        note="Not closed (kept as Definition C13_tables_listed_statement in Props/C13.v): exactness of _meta_tables (checked by "
+             "the correspondence run only). Guarded run (stops at F1 / F3 sites). The order of tables within one event buffer is fixed in the "
              "model (client tables, _meta_tables, catalogue tables).",
         technique="Coq invariant proof over operation histories (log-level catalogue invariant + replay induction) + "
                   "refutation witness + history correspondence",
@@ -133,13 +137,13 @@ CLAIMED = {
              "place, catalogue file replaced, partition file removed, segment removed): from every prefix of the effects of "
              "an ingestion, started at any reachable state, recovery returns the acknowledged content or that plus the "
              "in-flight request whole across all its tables - except exactly the cut where the log temp file is incomplete, "
-             "where it hangs (F8, refutation witness proved); from every prefix of the effects of a flush (any factor, any "
+             "where opening fails (F8: panic since b430922, hang before; refutation witness proved); from every prefix of the effects of a flush (any factor, any "
              "size oracle) recovery returns the acknowledged content; partition files precede the catalogue which precedes "
              "removals; recovery of a state at rest has no effects and recovering twice gives the same. Tied to the code by "
              "the fs_effect hook: effect-trace conformance per operation and reopening a copy of the directory taken at "
              "every effect in a child process under a deadline.",
         note="Partial w.r.t. the host file system (process death only, no reordering). Findings: F8 (incomplete log temp "
-             "file: open hangs), F8b (complete log temp file is replayed but the next flush panics removing <id>.wal).",
+             "file: the database cannot be opened), F8b (complete log temp file is replayed but the next flush panics removing <id>.wal).",
         technique="Coq proof over effect prefixes (frame invariants) + effect-trace correspondence + crash-copy reopen",
         design_ref="5/C09"),
     "C18": dict(
@@ -163,8 +167,8 @@ CLAIMED = {
              "exactly the partition's rows; for the faithful model the statement is refuted by the F1 witness (a = [10, NULL], "
              "one flush with factor 0 gives [10, 0]), which is replayed on the implementation.",
         note="Content preservation is proved for the guarded run (compaction stops at the F1 / F3 sites). F2 (hex-packed "
-             "strings: todo!()) and F28 (LZ4-compressed packed strings) are column-encoding defects found by the "
-             "correspondence run, not modelled.",
+             "strings: todo!()), F28 (LZ4-compressed packed strings) and F29 (LZ4-compressed u16/u32 integers) are defects "
+             "of the free column::decode found by the correspondence run, not modelled.",
         technique="Coq invariant proof over operation histories + refutation witness + history correspondence",
         design_ref="5/C07"),
     "C08": dict(
